@@ -1,6 +1,8 @@
 \* Reference configuration (the check writes its own per tier, see checks/C26.py)
 SPECIFICATION Spec
 CONSTANTS
+  CodeUnanchored = FALSE
+  CodeNoRange = FALSE
   FormatIds = {1,2,3,4,5,6,7,8,9,10,11,12,13,14,15}
   Zones = {"UTC", "Asia/Kolkata", "America/Los_Angeles", "America/New_York"}
   PathIds = {1,2,3,4,5,6,7,8}
